@@ -185,7 +185,9 @@ def gen_module(rng, max_items=6, want_imports=True, final_newline=None, prologue
         if pro < 0.35:
             parts.append(rng.choice(["#!/usr/bin/env python\n", "# -*- coding: utf-8 -*-\n", "# license\n# text\n", ""]))
             if rng.random() < 0.6:
-                parts.append(rng.choice(['"""Module doc."""\n', '"""Multi\nline doc.\n"""\n', "'doc'\n", 'r"""raw\n"""  # dc\n']))
+                parts.append(rng.choice(['"""Module doc."""\n', '"""Multi\nline doc.\n"""\n', "'doc'\n", 'r"""raw\n"""  # dc\n',
+                                         '"""Doc.\n\n    >>> print "py2 example"\n    >>> f(<your data>)\n    >>> os.getcwd(\n"""\n',
+                                         '"""Doc.\n\n    >>> import os\n    >>> os.sep\n    \'/\'\n"""\n']))
             if rng.random() < 0.3:
                 parts.append("from __future__ import annotations\n")
             parts.append(gen_filler(rng))
